@@ -1,4 +1,71 @@
-(* C04 — caches are transparent for every history (placeholder until the store invariant is instantiated). *)
-From Connectome Require Import Values VM Store StoreFacts.
-Theorem C04_placeholder : True. Proof. exact I. Qed.
-Print Assumptions C04_placeholder.
+(* C04 — caches are transparent for every history of calls, failures and rebuilds. *)
+From Connectome Require Import Values Attrs VM Edges EdgesGen Store Evaluator L2 HashSound SpecEq EqFacts C01Inst C04Main Total Examples.
+Local Open Scope list_scope.
+
+(* Every history of calls and clears, on any sequence of graphs sharing the caches (rebuilds, pipeline variants
+   on the same storage), RAM caches bounded or not and digest-keyed disk stores, with arbitrary Good-preserving
+   interference: each call returns the value of the plain recursive semantics [sem] of its own graph, i.e. what
+   the pipeline without cache layers returns.  [call_ok]: the graph is acyclic and well-formed, no Silent
+   arguments, the semantics of every cache node and of the output is defined (no user function raises) and the
+   hashes of cache nodes have no numeric leaves (keys are strings: otherwise finding F3 applies to RAM caches). *)
+Theorem C04_history_transparent :
+  forall (apply : string -> list val -> list (string * val) -> val) (interfere : cstore -> cstore),
+  (forall s, CInvS apply s -> CInvS apply (interfere s)) ->
+  forall (ops : list hop2) (σ : cstore), CInvS apply σ -> Forall (op_ok apply) ops -> hist apply interfere σ ops.
+Proof. exact history_transparent. Qed.
+Print Assumptions C04_history_transparent.
+
+(* the empty store of any cache configuration satisfies the invariant, and clear keeps it *)
+Theorem C04_fresh_store_ok :
+  forall apply (ks : list (nat * ckind)), CInvS apply (map (fun ck => (fst ck, new_cache (snd ck))) ks).
+Proof. exact cinv_new. Qed.
+Print Assumptions C04_fresh_store_ok.
+
+(* a failed computation leaves nothing behind: the regenerated CacheEdge.evaluate performs its only write after
+   the parent's value has been received *)
+Theorem C04_write_follows_parent :
+  forall c, exists k1, eval_gen (ECache c) = GYield RCurrentHash k1 /\
+    forall key, exists k2, k1 key = GGet c key k2 /\
+      exists k3, k2 None = GYield (RParentValue 0) k3 /\ forall v, k3 v = GSet c key v (GRet v).
+Proof.
+  intros c. eexists. split; [reflexivity|]. intros key. eexists. split; [reflexivity|]. eexists. split; [reflexivity|]. reflexivity.
+Qed.
+Print Assumptions C04_write_follows_parent.
+
+(* Non-vacuity: a pipeline  x -> f -> [RAM cache 0, size 1] -> g -> [disk cache 1]  and its variant with g' instead
+   of g sharing both caches meet [call_ok]; the history call(a); call(b); call(a) of the first, then call(a) of
+   the variant, returns the four cache-free values when actually run on the concrete store (the third call
+   misses the evicted RAM entry and hits the disk). *)
+Definition c04_call (gname key : string) : hcall :=
+  {| hc_g := c04_g gname; hc_ins := [(0, VStr key)]; hc_o := 4; hc_raises := fun _ _ _ => false |}.
+Example C04_example_call_ok : forall gname key, String.eqb gname "builtins.tuple" = false ->
+  call_ok ex_apply (c04_call gname key) (c04_val gname key).
+Proof.
+  intros gname key Hname. unfold call_ok.
+  assert (Hok : graph_okb (c04_g gname) = true) by (cbn; rewrite Hname; reflexivity).
+  destruct (graph_okb_sound _ Hok) as [Hn He].
+  split; [apply wfb_sound; reflexivity|]. split.
+  { intros n x e ps Hi Hnth. cbn in Hi. destruct n; [discriminate|]. discriminate. }
+  split; [exact Hn|]. split; [exact He|]. split.
+  { intros n k ps Hnth. destruct n as [|[|[|[|[|n]]]]]; cbn in Hnth; try discriminate.
+    - exists 5. eexists. eexists. split; [cbn; reflexivity|reflexivity].
+    - exists 5. eexists. eexists. split; [cbn; reflexivity|reflexivity].
+    - destruct n; discriminate. }
+  split; [cbn; lia|]. exists 5. eexists. cbn. reflexivity.
+Qed.
+Print Assumptions C04_example_call_ok.
+
+Definition run1 (gname key : string) (σ : cstore) : option val * cstore :=
+  match call (shape (c04_g gname)) (gens_of (c04_g gname)) ex_apply (fun _ _ _ => false) cstore cget cset (fun s => s)
+             [(0, VStr key)] 4 σ 400 with
+  | Finished _ (SVal v) s => (Some v, sto cstore s)
+  | Finished _ _ s | Raised _ _ s | Stuck _ _ s | Running _ s => (None, sto cstore s)
+  end.
+Example C04_example_history :
+  let σ0 := [(0, new_cache (KRam (Some 1))); (1, new_cache KDisk)] in
+  let '(r1, σ1) := run1 "g" "a" σ0 in let '(r2, σ2) := run1 "g" "b" σ1 in
+  let '(r3, σ3) := run1 "g" "a" σ2 in let '(r4, σ4) := run1 "g2" "a" σ3 in
+  [r1; r2; r3; r4] = [Some (c04_val "g" "a"); Some (c04_val "g" "b"); Some (c04_val "g" "a"); Some (c04_val "g2" "a")]
+  /\ csize σ4 0 = 1 /\ csize σ4 1 = 3.
+Proof. vm_compute. auto. Qed.
+Print Assumptions C04_example_history.
